@@ -128,6 +128,9 @@ def message_abs(o):
         if mn == 'SslHandshakeClientHello':
             return 'ssl2_client_hello', {'version': 2, 'cipher_kinds': [code(c) for c in m.cipher_kinds],
                                          'session_id': list(m.session_id), 'challenge': list(m.challenge)}
+        if mn == 'SslHandshakeServerHello':
+            return 'ssl2_server_hello', {'version': 2, 'session_id_hit': bool(m.session_id_hit), 'certificate': list(m.certificate),
+                                         'cipher_kinds': [code(c) for c in m.cipher_kinds], 'connection_id': list(m.connection_id)}
         return None
     if n.startswith('TlsExtension'):
         a = ext_abs(o)
